@@ -278,6 +278,11 @@ func checkCodec(c *core.Check, which string) {
 		"struct fields are bound to properties by normalised name; JSON leaves are tokenised with strconv / time.Parse (trusted)",
 	}
 	thorough := c.Tier == "thorough"
+	if which == "c08" {
+		if !readerWalk(c) {
+			return
+		}
+	}
 	r, err := core.RunTLC(core.TLCOpts{Module: "MC_Codec", Cfg: "MC_Codec.cfg", Workers: 4, Timeout: 10 * time.Minute})
 	if err != nil || r.Error != "" {
 		c.HarnessError(fmt.Sprintf("MC_Codec: %v %s", err, r.Error))
